@@ -118,7 +118,8 @@ def h_hdf5_unknown(nr, nc, axis, with_md):
     subs = [()] + _nonempty_subsets(n)
     keep = list(subs[choice(len(subs), 'known-part')])
     ids = [a.ids(axis)[k] for k in keep]
-    ids.insert(choice(len(ids) + 1, 'pos'), 'not-in-file')
+    unknown = pick(['not-in-file', max(a.ids(axis), key=len) + '_rep2', a.ids(axis)[0] + 'x'], 'unknown-id')
+    ids.insert(choice(len(ids) + 1, 'pos'), unknown)
     r, e = call(lambda: b.Table.from_hdf5(store, ids=ids, axis=axis, subset_with_metadata=with_md))
     if e is None:
         fail('hdf5-subset:unknown-id-accepted', f"{ids} -> {list(r.ids(axis=axis))}", axis=axis, with_metadata=int(with_md))
